@@ -30,6 +30,8 @@ type Engine struct {
 	specUsed  map[string]bool
 	repo      string
 	known     map[string]KnownFinding
+	// locals of every function under contract on the pinned tree (baseline/locals.json)
+	baseLocals map[string][]LocalVar
 }
 
 func (tt *typeTags) tagName(name string) int {
